@@ -53,6 +53,7 @@ type Op struct {
 	Salt    int    `json:"salt,omitempty"`
 	Ann     string `json:"ann,omitempty"` // force: jwt | basic | both | minion
 	Valid   bool   `json:"valid"`
+	Want    bool   `json:"want"` // the verdict the payload was built to get (catalogue below)
 	Main    string `json:"main,omitempty"`
 	Crt     string `json:"crt,omitempty"`
 	Crl     string `json:"crl,omitempty"`
@@ -144,7 +145,7 @@ var validPayloads = map[string][]string{
 
 var invalidPayloads = map[string][]string{
 	"kubernetes.io/tls":  {"mismatch", "nonpem-crt", "nonpem-key", "nokey", "nocrt", "empty", "badder", "swapped"},
-	"nginx.org/ca":       {"nocrt", "nonpem", "wrongblock", "badder", "empty", "crl-only"},
+	"nginx.org/ca":       {"nocrt", "nonpem", "wrongblock", "wrongblock-der", "badder", "empty", "crl-only"},
 	"nginx.org/jwk":      {"nokey", "wrongkey"},
 	"nginx.org/oidc":     {"nokey", "space", "dollar", "newline", "quote", "backslash-end"},
 	"nginx.org/htpasswd": {"nokey", "wrongkey"},
@@ -212,6 +213,9 @@ func buildData(typ, payload string, salt int) map[string][]byte {
 		d["ca.crt"] = txt("not a PEM block")
 	case "wrongblock":
 		d["ca.crt"] = s(A.key)
+	case "wrongblock-der":
+		blk, _ := pem.Decode(A.crt)
+		d["ca.crt"] = s(pem.EncodeToMemory(&pem.Block{Type: "TRUSTED CERTIFICATE", Bytes: blk.Bytes}))
 	case "jwk":
 		d["jwk"] = txt(`{"keys":[{"k":"ZmFudGFzdGljand0","kty":"oct","kid":"0001"}]}`)
 	case "jwk-empty":
@@ -273,6 +277,12 @@ func h16(b []byte) string {
 func oracle(o *Op) {
 	sec := mkSecret(*o)
 	o.Valid = secrets.ValidateSecret(sec) == nil
+	o.Want = false
+	for _, p := range validPayloads[o.Type] {
+		if p == o.Payload {
+			o.Want = true
+		}
+	}
 	var main []byte
 	switch o.Type {
 	case "nginx.org/jwk":
@@ -368,15 +378,35 @@ func ingressFor(ns, name, ann string) *networking.Ingress {
 // IngressEx.SecretRefs and the real Configurator configures the Ingress.
 func (s *sut) force(o Op) *secrets.SecretReference {
 	ref := s.store.GetSecret(o.NS + "/" + o.Name)
-	ing := ingressFor(o.NS, o.Name, o.Ann)
-	ex := &configs.IngressEx{
-		Ingress:          ing,
-		Endpoints:        map[string][]string{"tea-svc80": {"10.0.0.2:80"}},
-		ExternalNameSvcs: map[string]bool{},
-		ValidHosts:       map[string]bool{"cafe.example.com": true},
-		SecretRefs:       map[string]*secrets.SecretReference{o.Name: ref},
+	mk := func(ing *networking.Ingress, refs map[string]*secrets.SecretReference) *configs.IngressEx {
+		return &configs.IngressEx{
+			Ingress:          ing,
+			Endpoints:        map[string][]string{"tea-svc80": {"10.0.0.2:80"}},
+			ExternalNameSvcs: map[string]bool{},
+			ValidHosts:       map[string]bool{"cafe.example.com": true},
+			SecretRefs:       refs,
+		}
 	}
-	_, _ = s.cnf.AddOrUpdateIngress(ex)
+	with := map[string]*secrets.SecretReference{o.Name: ref}
+	none := map[string]*secrets.SecretReference{}
+	switch o.Ann {
+	case "master", "minion":
+		// mergeable Ingresses: the annotation sits on the master or on the minion
+		master := ingressFor(o.NS, o.Name, map[string]string{"master": "jwt", "minion": ""}[o.Ann])
+		master.Name = "ing-master"
+		master.Annotations["nginx.org/mergeable-ingress-type"] = "master"
+		master.Spec.Rules[0].HTTP = nil
+		minion := ingressFor(o.NS, o.Name, map[string]string{"master": "", "minion": "basic"}[o.Ann])
+		minion.Name = "ing-minion"
+		minion.Annotations["nginx.org/mergeable-ingress-type"] = "minion"
+		mrefs, nrefs := with, none
+		if o.Ann == "minion" {
+			mrefs, nrefs = none, with
+		}
+		_, _ = s.cnf.AddOrUpdateMergeableIngress(&configs.MergeableIngresses{Master: mk(master, mrefs), Minions: []*configs.IngressEx{mk(minion, nrefs)}})
+	default:
+		_, _ = s.cnf.AddOrUpdateIngress(mk(ingressFor(o.NS, o.Name, o.Ann), with))
+	}
 	return ref
 }
 
@@ -458,7 +488,9 @@ func witnesses() []Case {
 			up(x, "kubernetes.io/tls", "pairA", 0), get(x), up(x, "nginx.org/ca", "caB", 0), get(x)}},
 		{Class: "witness-force", Ops: []Op{
 			up(x, "nginx.org/jwk", "nokey", 0), force(x, "jwt"), get(x), up(x, "nginx.org/jwk", "jwk", 1), get(x),
-			up(x, "nginx.org/jwk", "nokey", 2), get(x), up(x, "nginx.org/jwk", "jwk", 3), del(x), force(x, "basic")}},
+			up(x, "nginx.org/jwk", "nokey", 2), get(x), up(x, "nginx.org/jwk", "jwk", 3), del(x), force(x, "basic"),
+			up(x, "nginx.org/htpasswd", "nokey", 4), force(x, "minion"), up(x, "nginx.org/htpasswd", "ok", 5),
+			up(x, "nginx.org/htpasswd", "nokey", 6), force(x, "master"), up(x, "nginx.org/htpasswd", "ok", 7)}},
 	}
 }
 
@@ -556,7 +588,7 @@ func genHistory(r *vh.Rng, id int) Case {
 		case x < 86:
 			ops = append(ops, del(k))
 		case x < 96 && forceOK:
-			ops = append(ops, force(k, vh.Pick(r, []string{"jwt", "basic", "both"})))
+			ops = append(ops, force(k, vh.Pick(r, []string{"jwt", "basic", "both", "master", "minion"})))
 		case x < 98:
 			ops = append(ops, Op{Op: "get", Key: vh.Pick(r, []string{"nosuch/secret", k.ns + "-" + k.name, k.name, ""})})
 		default:
